@@ -3,8 +3,12 @@
 package mqtt
 
 import (
+	"bufio"
+	"encoding/json"
 	"fmt"
 	"os"
+	"sort"
+	"strings"
 	"testing"
 	"time"
 )
@@ -47,5 +51,58 @@ func TestVerifReplay(t *testing.T) {
 	case <-time.After(20 * time.Second):
 		fmt.Println("VERIF-HANG: harness did not return within 20 s")
 		t.Fail()
+	}
+}
+
+// TestVerifSelftest: translator validation. Every line of VERIF_VECTORS is a
+// loose vector; the harness outcome is printed per line for comparison with
+// the engine's concrete execution of the same vector.
+func TestVerifSelftest(t *testing.T) {
+	path := os.Getenv("VERIF_VECTORS")
+	if path == "" {
+		t.Skip("no VERIF_VECTORS")
+	}
+	f, err := os.Open(path)
+	if err != nil {
+		t.Fatal(err)
+	}
+	defer f.Close()
+	sc := bufio.NewScanner(f)
+	sc.Buffer(make([]byte, 1<<20), 1<<24)
+	i := 0
+	for sc.Scan() {
+		verifVec = verifVector{}
+		verifVecPos = 0
+		verifReached = nil
+		if err := json.Unmarshal(sc.Bytes(), &verifVec); err != nil {
+			t.Fatal(err)
+		}
+		h := verifHarnesses[verifVec.Harness]
+		done := make(chan string, 1)
+		go func() {
+			defer func() {
+				switch r := recover().(type) {
+				case nil:
+					done <- "pass"
+				case verifViolation:
+					done <- "violation: " + r.msg
+				case verifAssumeFailed:
+					done <- "assume-failed"
+				default:
+					done <- fmt.Sprintf("panic: %v", r)
+				}
+			}()
+			h()
+		}()
+		var out string
+		select {
+		case out = <-done:
+		case <-time.After(20 * time.Second):
+			out = "hang"
+		}
+		tags := append([]string{}, verifReached...)
+		sort.Strings(tags)
+		fmt.Printf("SELFTEST %d %s | reach=%s\n", i, out, strings.Join(tags, ","))
+		i++
 	}
 }
